@@ -22,6 +22,11 @@ def setOf (db : DB) : Nat :=
   | some (_, s) => s
   | none => 0
 
+/-- an announced next-epoch datum is not lost: it is still on disk (NewEpochState restores it) or the epoch
+    definition of the same or a later epoch has been persisted -/
+def NedOK (db : DB) (e h : Nat) : Prop := db.ned e h = true ∨ ∃ e', e ≤ e' ∧ db.einfo e' = true
+def NcdOK (db : DB) (e h : Nat) : Prop := db.ncd e h = true ∨ ∃ e', e ≤ e' ∧ db.cinfo e' = true
+
 /-- the database invariant: every reference can be followed -/
 structure DBInv (db : DB) : Prop where
   hsh0 : ∃ g, db.hsh 0 = some g
@@ -51,6 +56,8 @@ def SafeW (db : DB) : W → Prop
   | .fin _ _ h => HdrOK db h
   | .hrs r s => (∃ h, db.fin r s = some h) ∧ setOf db ≤ s
   | .curSet s => (∃ a, db.auth s = some a) ∧ (∃ c, db.change s = some c)
+  | .delNed e _ => ∃ e', e ≤ e' ∧ db.einfo e' = true
+  | .delNcd e _ => ∃ e', e ≤ e' ∧ db.cinfo e' = true
   | _ => True
 
 def SafeWs (db : DB) : List W → Prop
@@ -71,12 +78,20 @@ structure Keeps (db db' : DB) : Prop where
   hdrok : ∀ h, HdrOK db h → HdrOK db' h
   inv : DBInv db → DBInv db'
   set : setOf db ≤ setOf db'
+  nedok : ∀ e h, NedOK db e h → NedOK db' e h
+  ncdok : ∀ e h, NcdOK db e h → NcdOK db' e h
+  jcp : ∀ h, db.jcp h = true → db'.jcp h = true
+  pv : ∀ r s, db.pv r s = true → db'.pv r s = true
+  pc : ∀ r s, db.pc r s = true → db'.pc r s = true
 
-theorem Keeps.refl (db : DB) : Keeps db db := ⟨fun _ h => h, fun _ h => h, fun h => h, Nat.le_refl _⟩
+theorem Keeps.refl (db : DB) : Keeps db db :=
+  ⟨fun _ h => h, fun _ h => h, fun h => h, Nat.le_refl _, fun _ _ h => h, fun _ _ h => h, fun _ h => h,
+   fun _ _ h => h, fun _ _ h => h⟩
 
 theorem Keeps.trans {a b c : DB} (h1 : Keeps a b) (h2 : Keeps b c) : Keeps a c :=
   ⟨fun x h => h2.node x (h1.node x h), fun x h => h2.hdrok x (h1.hdrok x h), fun h => h2.inv (h1.inv h),
-   Nat.le_trans h1.set h2.set⟩
+   Nat.le_trans h1.set h2.set, fun e x h => h2.nedok e x (h1.nedok e x h), fun e x h => h2.ncdok e x (h1.ncdok e x h),
+   fun x h => h2.jcp x (h1.jcp x h), fun r s h => h2.pv r s (h1.pv r s h), fun r s h => h2.pc r s (h1.pc r s h)⟩
 
 theorem node_write {db : DB} (w : W) {x : Nat} (h : db.node x = true) : (db.write w).node x = true := by
   cases w <;> simp [DB.write, h]
@@ -148,8 +163,51 @@ theorem inv_write {db : DB} {w : W} (hs : SafeW db w) (h : DBInv db) : DBInv (db
       · exact ⟨cs, a, c, by simpa [DB.write] using hcs, by simpa [DB.write] using ha, by simp [DB.write, hx, hc]⟩
   · cases w <;> simp [DB.write, hlr]
 
+theorem einfo_write {db : DB} (w : W) {e : Nat} (h : db.einfo e = true) : (db.write w).einfo e = true := by
+  cases w <;> simp [DB.write, h]
+
+theorem cinfo_write {db : DB} (w : W) {e : Nat} (h : db.cinfo e = true) : (db.write w).cinfo e = true := by
+  cases w <;> simp [DB.write, h]
+
+theorem nedok_write {db : DB} {w : W} (hs : SafeW db w) {e h : Nat} (hk : NedOK db e h) :
+    NedOK (db.write w) e h := by
+  rcases hk with hk | ⟨e', he, hk⟩
+  · cases w with
+    | delNed e2 h2 =>
+      by_cases hc : e = e2 ∧ h = h2
+      · obtain ⟨e', he', hk'⟩ := (hs : ∃ e', e2 ≤ e' ∧ db.einfo e' = true)
+        exact Or.inr ⟨e', hc.1 ▸ he', by simpa [DB.write] using hk'⟩
+      · exact Or.inl (by simp only [DB.write, hc, if_false, hk])
+    | ned e2 h2 => exact Or.inl (by by_cases hc : e = e2 ∧ h = h2 <;> simp [DB.write, hc, hk])
+    | _ => exact Or.inl (by simpa [DB.write] using hk)
+  · exact Or.inr ⟨e', he, einfo_write w hk⟩
+
+theorem ncdok_write {db : DB} {w : W} (hs : SafeW db w) {e h : Nat} (hk : NcdOK db e h) :
+    NcdOK (db.write w) e h := by
+  rcases hk with hk | ⟨e', he, hk⟩
+  · cases w with
+    | delNcd e2 h2 =>
+      by_cases hc : e = e2 ∧ h = h2
+      · obtain ⟨e', he', hk'⟩ := (hs : ∃ e', e2 ≤ e' ∧ db.cinfo e' = true)
+        exact Or.inr ⟨e', hc.1 ▸ he', by simpa [DB.write] using hk'⟩
+      · exact Or.inl (by simp only [DB.write, hc, if_false, hk])
+    | ncd e2 h2 => exact Or.inl (by by_cases hc : e = e2 ∧ h = h2 <;> simp [DB.write, hc, hk])
+    | _ => exact Or.inl (by simpa [DB.write] using hk)
+  · exact Or.inr ⟨e', he, cinfo_write w hk⟩
+
+theorem jcp_write {db : DB} (w : W) {h : Nat} (hk : db.jcp h = true) : (db.write w).jcp h = true := by
+  cases w <;> simp [DB.write, hk]
+
+theorem pv_write {db : DB} (w : W) {r s : Nat} (hk : db.pv r s = true) : (db.write w).pv r s = true := by
+  cases w <;> simp [DB.write, hk]
+
+theorem pc_write {db : DB} (w : W) {r s : Nat} (hk : db.pc r s = true) : (db.write w).pc r s = true := by
+  cases w <;> simp [DB.write, hk]
+
 theorem keeps_write {db : DB} {w : W} (hs : SafeW db w) : Keeps db (db.write w) :=
-  ⟨fun _ h => node_write w h, fun _ h => hdrok_write hs h, inv_write hs, setOf_write hs⟩
+  ⟨fun _ h => node_write w h, fun _ h => hdrok_write hs h, inv_write hs, setOf_write hs,
+   fun _ _ h => nedok_write hs h, fun _ _ h => ncdok_write hs h, fun _ h => jcp_write w h,
+   fun _ _ h => pv_write w h, fun _ _ h => pc_write w h⟩
 
 theorem keeps_writes : ∀ {ws : List W} {db : DB}, SafeWs db ws → Keeps db (ws.foldl DB.write db)
   | [], db, _ => Keeps.refl db
@@ -184,6 +242,19 @@ theorem safeWs_of_plain : ∀ {ws : List W} (db : DB),
   | w :: ws, db, h => by
     refine ⟨?_, safeWs_of_plain (ws := ws) _ (fun x hx => h x (List.mem_cons_of_mem _ hx))⟩
     rcases h w (List.mem_cons_self ..) with ⟨n, i, rfl⟩ | ⟨st, rfl⟩ <;> trivial
+
+/-- a batch that deletes next-epoch-data keys of an epoch whose (or a later epoch's) definition is persisted -/
+theorem safeWs_delNed : ∀ (hs : List Nat) (db : DB) (e e' : Nat), e ≤ e' → db.einfo e' = true →
+    SafeWs db (hs.map (W.delNed e))
+  | [], _, _, _, _, _ => trivial
+  | h :: hs, db, e, e', he, hk =>
+    ⟨⟨e', he, hk⟩, safeWs_delNed hs _ e e' he (einfo_write (.delNed e h) hk)⟩
+
+theorem safeWs_delNcd : ∀ (hs : List Nat) (db : DB) (e e' : Nat), e ≤ e' → db.cinfo e' = true →
+    SafeWs db (hs.map (W.delNcd e))
+  | [], _, _, _, _, _ => trivial
+  | h :: hs, db, e, e', he, hk =>
+    ⟨⟨e', he, hk⟩, safeWs_delNcd hs _ e e' he (cinfo_write (.delNcd e h) hk)⟩
 
 /-! ### the genesis database -/
 
